@@ -37,7 +37,7 @@ Proof. exact failing_tx_is_invisible. Qed.
    are the same field by field — and so are the validator updates, CometBFT's sets and the halt status *)
 Theorem C06_block_commits_the_same_state_without_the_failing_tx : forall w b txs1 tx txs2,
   let c1 := match begin_block (with_clock (w_chain w) (height (w_chain w) + 1) (now (w_chain w) + b_dt b))
-                              (match c_prev (w_comet w) with Some vs => sorted_votes vs | None => [] end) (b_absent b) with inl c1 => c1 | inr _ => w_chain w end in
+                              (match c_prev (w_comet w) with Some vs => sorted_votes vs | None => [] end) (b_absent b) (b_evidence b) with inl c1 => c1 | inr _ => w_chain w end in
   (exists cf e, deliver_tx (fst (deliver_txs c1 txs1)) tx = (cf, TErr e)) ->
   let w1 := fst (run_block w (block_with b (txs1 ++ tx :: txs2))) in
   let w2 := fst (run_block w (block_with b (txs1 ++ txs2))) in
